@@ -97,6 +97,15 @@ def word_cases(words, part, parts):
             yield word_case(w, a, c)
 
 
+def pair_cases():
+    """Every ordered pair of opcodes (0..15) executed back to back on boundary accumulator / operand values: results that
+    are numerically right but misbehave when consumed by the next instruction (representation leaks) show up here."""
+    for op1, op2 in itertools.product(range(16), range(16)):
+        for accu, cell in ((0xFFFF, 0xFFFF), (0x8000, 0x8001), (0, 1), (1, 0xFFFF), (0x7FFF, 1), (0xFFFF, 1)):
+            yield {"first": ["NOP", None], "len": 4, "accu": accu, "max": 8,
+                   "words": {"1": (op1 << 12) | 100, "2": (op2 << 12) | 101, "3": 0x9000, "100": cell, "101": cell ^ 0x8001}}
+
+
 @st.composite
 def program_case(draw):
     n = draw(st.one_of(st.integers(1, 12), st.integers(1, 64), st.sampled_from([1, 2, 4096])))
@@ -144,16 +153,22 @@ def shards(tier, seed):
             items.append({"what": "words", "words": words, "part": p, "parts": 4, "label": "16 opcodes x 9 boundary addresses"})
         for i in range(4):
             items.append({"what": "prog", "n": 400, "seed": seed * 1000 + i})
+        items.append({"what": "pairs"})
     else:
         for p in range(64):
             items.append({"what": "words", "range": [p * 1024, (p + 1) * 1024], "part": 0, "parts": 1, "label": "all 65536 words"})
         for i in range(32):
             items.append({"what": "prog", "n": 1250, "seed": seed * 1000 + i})
+        items.append({"what": "pairs"})
     return items
 
 
 def run_shard(item, stats):
     km = core.known_matcher(ID, globals().get("known_match"))
+    if item["what"] == "pairs":
+        core.run_cases(pair_cases(), check, stats, km, distinct=True)
+        stats.exhaustive_parts.append("all 16 x 16 opcode pairs back to back x 6 boundary accu/operand combinations")
+        return
     if item["what"] == "words":
         words = item.get("words") or range(*item["range"])
         core.run_cases(word_cases(words, item["part"], item["parts"]), check, stats, km, distinct=True)
